@@ -21,7 +21,9 @@
  *  tpt_ev_add_args / tpt_ev_add_args2 / tpt_ev_del_args1 / tpt_ev_enable_args / tpt_ev_enable_args1
  *        (the registration layer, property C06): logged in vf_ev[], return 0 or any error number.
  *  skt_accept   error number, or 0 with a fresh descriptor in *skt_ret (at most 3 per run)
- *  close        logged
+ *  close        logged; sockets handed out by skt_accept / skt_bind / skt_connect are kept in a ledger (closed twice = counted)
+ *  skt_bind / skt_listen / skt_opts_apply_ex / skt_connect  error number without effect, or success (fresh socket)
+ *  clock_gettime  monotonic, otherwise arbitrary; tp_thread_get / _get_rr / _count_max_get: a table of VF_POOL_THREADS opaque threads
  */
 #ifndef VF_STUBS_SYS_IO_H
 #define VF_STUBS_SYS_IO_H
@@ -37,6 +39,7 @@
 #include <syslog.h>
 #include "threadpool/threadpool.h"
 #include "net/socket.h"
+#include "net/socket_options.h"
 
 int nondet_int(void);
 _Bool nondet_bool(void);
@@ -192,21 +195,96 @@ int tpt_ev_enable_args1(int enable, uint16_t event, tp_udata_p ud) {
 }
 
 /* ---- the rest ---------------------------------------------------------------------------- */
+/* sockets handed out by the stubs below (skt_accept / skt_bind / skt_connect): a small ledger, so that a
+ * descriptor closed twice or never closed is seen; other descriptors (the harness' own ident) are only logged */
+#define VF_SKT_BASE	200
+#define VF_SKT_MAX	8
+_Bool vf_skt_is_open[VF_SKT_MAX];
+int vf_skt_cnt, vf_skts_open, vf_close_twice;
+static uintptr_t vf_skt_new(void) {
+	__CPROVER_assert(vf_skt_cnt < VF_SKT_MAX, "ghost socket table large enough");
+	vf_skt_is_open[vf_skt_cnt] = 1;
+	vf_skts_open ++;
+	return ((uintptr_t)(VF_SKT_BASE + vf_skt_cnt ++));
+}
 int vf_close_calls, vf_close_last_fd;
-int close(int fd) { vf_close_calls ++; vf_close_last_fd = fd; return (0); }
+int close(int fd) {
+	vf_close_calls ++; vf_close_last_fd = fd;
+	if (fd >= VF_SKT_BASE && fd < VF_SKT_BASE + vf_skt_cnt) {
+		if (vf_skt_is_open[fd - VF_SKT_BASE]) { vf_skt_is_open[fd - VF_SKT_BASE] = 0; vf_skts_open --; }
+		else { vf_close_twice ++; errno = EBADF; return (-1); }	/* in a real process: possibly somebody else's new descriptor */
+	}
+	return (0);
+}
 int vf_accept_calls, vf_accept_ok; uintptr_t vf_accept_last_lsn; uint32_t vf_accept_last_flags;
+#ifndef VF_ACCEPT_MAX
+#define VF_ACCEPT_MAX	3
+#endif
 int skt_accept(uintptr_t skt, sockaddr_storage_t *addr, socklen_t *addrlen, uint32_t flags, uintptr_t *skt_ret) {
 	vf_accept_calls ++;
 	vf_accept_last_lsn = skt; vf_accept_last_flags = flags;
 	__CPROVER_assert(skt_ret != NULL && addr != NULL && addrlen != NULL && *addrlen == sizeof(*addr), "skt_accept: result and address storage supplied");
-	if (vf_accept_ok >= 3)
+	if (vf_accept_ok >= VF_ACCEPT_MAX)
 		return (EAGAIN);	/* bound: no more pending connections */
 	if (nondet_bool())
 		return (vf_errno_any());
-	*skt_ret = (uintptr_t)(200 + vf_accept_ok);
+	*skt_ret = vf_skt_new();
 	vf_accept_ok ++;
 	return (0);
 }
+/* skt_bind / skt_listen / skt_opts_apply_ex / skt_connect: an error number and no effect, or 0 (bind / connect: with a
+ * fresh socket in *skt_ret). skt_connect is answered freely VF_CONNECT_MAX times, then fails (bound). */
+int vf_bind_calls, vf_listen_calls, vf_opts_calls, vf_connect_calls; uint32_t vf_bind_flags; uintptr_t vf_listen_skt, vf_opts_skt;
+const void *vf_connect_addr[4]; int vf_connect_proto;
+int skt_bind(const sockaddr_storage_t *addr, int type, int protocol, uint32_t flags, uintptr_t *skt_ret) {
+	vf_bind_calls ++; vf_bind_flags = flags;
+	if (!vf_no_faults && nondet_bool())
+		return (vf_errno_any());
+	*skt_ret = vf_skt_new();
+	return (0);
+}
+int skt_listen(uintptr_t skt, int backlog) {
+	vf_listen_calls ++; vf_listen_skt = skt;
+	return ((!vf_no_faults && nondet_bool()) ? vf_errno_any() : 0);
+}
+uint32_t nondet_uint32_t(void);
+int skt_opts_apply_ex(const uintptr_t skt, const uint32_t mask, const skt_opts_p opts, const sa_family_t family, uint32_t *err_mask) {
+	vf_opts_calls ++; vf_opts_skt = skt;
+	if (nondet_bool()) { if (err_mask != NULL) *err_mask = nondet_uint32_t(); return (vf_errno_any()); }
+	if (err_mask != NULL) *err_mask = 0;
+	return (0);
+}
+#ifndef VF_CONNECT_MAX
+#define VF_CONNECT_MAX	2
+#endif
+int skt_connect(const sockaddr_storage_t *addr, int type, int protocol, uint32_t flags, uintptr_t *skt_ret) {
+	if (vf_connect_calls < 4) vf_connect_addr[vf_connect_calls] = addr;
+	vf_connect_calls ++; vf_connect_proto = protocol;
+	__CPROVER_assert(addr != NULL && __CPROVER_r_ok(addr, sizeof(*addr)), "skt_connect: the address handed over is readable storage");
+	if (vf_connect_calls > VF_CONNECT_MAX)
+		return (ENETUNREACH);	/* bound */
+	if (nondet_bool())
+		return (vf_errno_any());
+	*skt_ret = vf_skt_new();
+	return (0);
+}
+/* monotonic clock: any time not before the previous reading */
+struct timespec vf_clock_now;
+int clock_gettime(clockid_t id, struct timespec *ts) {
+	long ds = nondet_int(), dn = nondet_int();
+	__CPROVER_assume(ds >= 0 && ds < 100000 && dn >= 0 && dn < 1000000000L);
+	vf_clock_now.tv_sec += ds; vf_clock_now.tv_nsec = dn;
+	*ts = vf_clock_now;
+	return (0);
+}
+/* the pool's thread table as far as tp_task_bind_accept_multi_create needs it */
+#ifndef VF_POOL_THREADS
+#define VF_POOL_THREADS	2
+#endif
+char vf_pool_thr[VF_POOL_THREADS + 1]; size_t vf_pool_rr;
+size_t tp_thread_count_max_get(tp_p tp) { return (VF_POOL_THREADS); }
+tpt_p tp_thread_get(tp_p tp, const size_t n) { return ((n < VF_POOL_THREADS) ? (tpt_p)(void *)&vf_pool_thr[n] : NULL); }
+tpt_p tp_thread_get_rr(tp_p tp) { vf_pool_rr = (vf_pool_rr + 1) % VF_POOL_THREADS; return ((tpt_p)(void *)&vf_pool_thr[vf_pool_rr]); }
 void syslog(int pri, const char *fmt, ...) { }
 #endif
 #endif
